@@ -1,4 +1,7 @@
-// Package smt drives one long-lived SMT solver process over a pipe.
+// Package smt drives long-lived SMT solver processes over pipes. One Solver
+// mirrors every command to several incremental back ends (z3 4.8.12 and
+// cvc5 with integer-blasting of bit-vectors), races them on each check-sat
+// and falls back to a portfolio of one-shot runs when all give up.
 package smt
 
 import (
@@ -10,6 +13,7 @@ import (
 	"os/exec"
 	"strconv"
 	"strings"
+	"sync"
 	"time"
 
 	"sse/term"
@@ -25,11 +29,113 @@ const (
 
 func (r Result) String() string { return [...]string{"unsat", "sat", "unknown"}[r] }
 
+type msg struct {
+	b    *backend
+	line string
+	ans  bool // a check-sat answer
+	eof  bool
+}
+
+type backend struct {
+	name   string
+	cmd    *exec.Cmd
+	wmu    sync.Mutex
+	wq     []string
+	wcond  *sync.Cond
+	closed bool
+	dead   bool
+	sent   int // check-sat commands sent
+	read   int // check-sat answers consumed
+}
+
+func startBackend(name string, args []string, pre string, sink chan msg) (*backend, error) {
+	cmd := exec.Command(args[0], args[1:]...)
+	in, err := cmd.StdinPipe()
+	if err != nil {
+		return nil, err
+	}
+	outp, err := cmd.StdoutPipe()
+	if err != nil {
+		return nil, err
+	}
+	cmd.Stderr = cmd.Stdout
+	if err := cmd.Start(); err != nil {
+		return nil, err
+	}
+	b := &backend{name: name, cmd: cmd}
+	b.wcond = sync.NewCond(&b.wmu)
+	go func() { // writer: never lets the caller block on a busy solver
+		for {
+			b.wmu.Lock()
+			for len(b.wq) == 0 && !b.closed {
+				b.wcond.Wait()
+			}
+			if b.closed && len(b.wq) == 0 {
+				b.wmu.Unlock()
+				in.Close()
+				return
+			}
+			q := b.wq
+			b.wq = nil
+			b.wmu.Unlock()
+			for _, s := range q {
+				if _, err := io.WriteString(in, s); err != nil {
+					return
+				}
+			}
+		}
+	}()
+	go func() { // reader
+		r := bufio.NewReaderSize(outp, 1<<16)
+		for {
+			line, err := r.ReadString('\n')
+			if t := strings.TrimSpace(line); t != "" {
+				switch t {
+				case "sat", "unsat", "unknown", "timeout":
+					sink <- msg{b: b, line: t, ans: true}
+				default:
+					if strings.Contains(t, "(error") && (strings.Contains(t, "interrupted") || strings.Contains(t, "imeout") || strings.Contains(t, "resource")) {
+						sink <- msg{b: b, line: "unknown", ans: true}
+					} else {
+						sink <- msg{b: b, line: t}
+					}
+				}
+			}
+			if err != nil {
+				sink <- msg{b: b, eof: true}
+				return
+			}
+		}
+	}()
+	b.send(pre)
+	return b, nil
+}
+
+func (b *backend) send(s string) {
+	if b.dead || s == "" {
+		return
+	}
+	b.wmu.Lock()
+	b.wq = append(b.wq, s)
+	b.wcond.Signal()
+	b.wmu.Unlock()
+}
+
+func (b *backend) close() {
+	b.wmu.Lock()
+	b.closed = true
+	b.wcond.Signal()
+	b.wmu.Unlock()
+	if b.cmd.Process != nil {
+		_ = b.cmd.Process.Kill()
+	}
+	go b.cmd.Wait()
+}
+
 type Solver struct {
-	Kind      string // z3 | z3-new | cvc5
-	cmd       *exec.Cmd
-	in        io.WriteCloser
-	out       *bufio.Reader
+	Kind      string
+	bs        []*backend
+	msgs      chan msg
 	defined   map[int32]bool
 	declaredA map[int32]bool
 	buf       strings.Builder
@@ -45,63 +151,72 @@ type Solver struct {
 	scoped    []int32 // term ids defined inside kept query scopes
 	scopedA   []int32
 	marks     [][2]int
-	live      []string // commands that are currently in effect (popped scopes removed)
+	live      []string // commands currently in effect (popped scopes removed)
 	liveMarks []int
 	liveVars  []*term.T
 	varMarks  []int
-	FastMs    int // first-attempt timeout of the incremental solver
+	FastMs    int
 	Escalated int
 	EscWins   map[string]int
+	Wins      map[string]int
 	EscTime   time.Duration
-	pinned    bool
+	escModel  map[int32]uint64 // model of the last escalated sat answer (valid until the scope is released)
+	satBy     *backend         // back end that answered sat for the open kept scope
+	Where     string           // diagnostics: source position of the current query
 }
 
+// New starts the solver. kind: "race" (z3 + cvc5 int-blasting, default), "z3", "cvc5i", "z3-new", "cvc5".
 func New(kind string, timeoutMs int) (*Solver, error) {
-	var cmd *exec.Cmd
-	switch kind {
-	case "z3":
-		cmd = exec.Command("/usr/bin/z3", "-in", "-smt2")
-	case "z3-new":
-		cmd = exec.Command("z3-new", "-in", "-smt2")
-	case "cvc5":
-		cmd = exec.Command("cvc5", "--incremental", "--lang=smt2", "--produce-models", fmt.Sprintf("--tlimit-per=%d", timeoutMs))
-	default:
-		return nil, fmt.Errorf("unknown solver %q", kind)
+	if kind == "" {
+		kind = "race"
 	}
-	in, err := cmd.StdinPipe()
-	if err != nil {
-		return nil, err
+	s := &Solver{Kind: kind, TimeoutMs: timeoutMs, FastMs: 4000, defined: map[int32]bool{}, declaredA: map[int32]bool{},
+		EscWins: map[string]int{}, Wins: map[string]int{}, msgs: make(chan msg, 1<<14)}
+	add := func(name string) error {
+		var b *backend
+		var err error
+		switch name {
+		case "z3":
+			b, err = startBackend("z3", []string{"/usr/bin/z3", "-in", "-smt2"},
+				fmt.Sprintf("(set-option :timeout %d)\n(set-option :produce-models true)\n", s.FastMs), s.msgs)
+		case "z3-new":
+			b, err = startBackend("z3-new", []string{"z3-new", "-in", "-smt2"},
+				fmt.Sprintf("(set-option :timeout %d)\n(set-option :produce-models true)\n", s.FastMs), s.msgs)
+		case "cvc5i":
+			b, err = startBackend("cvc5i", []string{"cvc5", "--incremental", "--lang=smt2", "--produce-models", "--solve-bv-as-int=sum",
+				fmt.Sprintf("--tlimit-per=%d", s.FastMs)}, "(set-logic ALL)\n", s.msgs)
+		case "cvc5":
+			b, err = startBackend("cvc5", []string{"cvc5", "--incremental", "--lang=smt2", "--produce-models",
+				fmt.Sprintf("--tlimit-per=%d", s.FastMs)}, "(set-logic QF_ABV)\n", s.msgs)
+		default:
+			return fmt.Errorf("unknown solver %q", name)
+		}
+		if err != nil {
+			return err
+		}
+		s.bs = append(s.bs, b)
+		return nil
 	}
-	outp, err := cmd.StdoutPipe()
-	if err != nil {
-		return nil, err
-	}
-	cmd.Stderr = cmd.Stdout
-	if err := cmd.Start(); err != nil {
-		return nil, err
-	}
-	s := &Solver{Kind: kind, cmd: cmd, in: in, out: bufio.NewReaderSize(outp, 1<<16), TimeoutMs: timeoutMs,
-		defined: map[int32]bool{}, declaredA: map[int32]bool{}}
-	s.FastMs = timeoutMs
-	if kind == "z3" {
-		s.FastMs = 2500
-	}
-	if kind == "cvc5" {
-		s.send("(set-logic QF_ABV)\n")
+	var err error
+	if kind == "race" {
+		if err = add("z3"); err == nil {
+			err = add("cvc5i")
+		}
 	} else {
-		s.send(fmt.Sprintf("(set-option :timeout %d)\n", s.FastMs))
+		err = add(kind)
 	}
-	s.send("(set-option :produce-models true)\n")
+	if err != nil {
+		s.Close()
+		return nil, err
+	}
 	return s, nil
 }
 
 func (s *Solver) Close() {
-	if s.cmd != nil {
-		s.in.Close()
-		_ = s.cmd.Process.Kill()
-		_ = s.cmd.Wait()
-		s.cmd = nil
+	for _, b := range s.bs {
+		b.close()
 	}
+	s.bs = nil
 }
 
 func (s *Solver) record(str string) {
@@ -122,38 +237,52 @@ func (s *Solver) record(str string) {
 				s.liveVars = s.liveVars[:s.varMarks[len(s.varMarks)-1]]
 				s.varMarks = s.varMarks[:len(s.varMarks)-1]
 			}
-		case strings.HasPrefix(ln, "(check-sat"), strings.HasPrefix(ln, "(get-value"), strings.HasPrefix(ln, "(set-option"):
 		default:
 			s.live = append(s.live, ln)
 		}
 	}
 }
 
+// send mirrors a state-changing command to every back end.
 func (s *Solver) send(str string) {
 	s.record(str)
 	if s.Log != nil {
 		io.WriteString(s.Log, str)
 	}
-	if _, err := io.WriteString(s.in, str); err != nil && s.Err == nil {
-		s.Err = err
+	for _, b := range s.bs {
+		b.send(str)
 	}
 }
 
-func (s *Solver) readLine() string {
-	line, err := s.out.ReadString('\n')
-	if err != nil && s.Err == nil {
-		s.Err = fmt.Errorf("solver pipe: %v", err)
+func (s *Solver) alive() int {
+	n := 0
+	for _, b := range s.bs {
+		if !b.dead {
+			n++
+		}
 	}
-	line = strings.TrimSpace(line)
-	if strings.Contains(line, "(error") && s.Err == nil {
-		s.Err = fmt.Errorf("solver error: %s", line)
-	}
-	return line
+	return n
 }
 
-// BeginPath opens the scope of one explored path. All definitions made
-// afterwards vanish at EndPath.
+func (s *Solver) kill(b *backend, why string) {
+	if b.dead {
+		return
+	}
+	b.dead = true
+	b.close()
+	if slowLog {
+		fmt.Fprintf(os.Stderr, "BACKEND-DEAD %s: %s (%s)\n", b.name, why, s.Where)
+	}
+	if s.alive() == 0 && s.Err == nil {
+		s.Err = fmt.Errorf("all solver back ends failed (last: %s: %s)", b.name, why)
+	}
+}
+
+// BeginPath opens the scope of one explored path.
 func (s *Solver) BeginPath() {
+	if s.alive() > 0 {
+		s.Err = nil // errors are per query; a dead solver set stays an error
+	}
 	s.send("(push 1)\n")
 	s.depth = 1
 	s.defined = map[int32]bool{}
@@ -204,6 +333,7 @@ func (s *Solver) define(t *term.T) {
 		t    *term.T
 		done bool
 	}
+	var newVars []*term.T
 	stack := []fr{{t, false}}
 	for len(stack) > 0 {
 		f := stack[len(stack)-1]
@@ -229,7 +359,7 @@ func (s *Solver) define(t *term.T) {
 		switch n.Op {
 		case term.OVar:
 			fmt.Fprintf(b, "(declare-const t%d %s) ; %s\n", n.ID, sortOf(n.W), n.Name)
-			s.liveVars = append(s.liveVars, n)
+			newVars = append(newVars, n)
 			continue
 		case term.OSelect:
 			if !s.declaredA[n.Arr.ID] {
@@ -240,6 +370,7 @@ func (s *Solver) define(t *term.T) {
 				fmt.Fprintf(b, "(declare-const %s (Array (_ BitVec 64) (_ BitVec 8)))\n", smtName(n.Arr.Name))
 			}
 			fmt.Fprintf(b, "(define-fun t%d () (_ BitVec 8) (select %s %s))\n", n.ID, smtName(n.Arr.Name), s.ref(n.A))
+			newVars = append(newVars, n)
 			continue
 		}
 		fmt.Fprintf(b, "(define-fun t%d () %s ", n.ID, sortOf(n.W))
@@ -260,6 +391,7 @@ func (s *Solver) define(t *term.T) {
 		b.WriteString(")\n")
 	}
 	s.send(s.buf.String())
+	s.liveVars = append(s.liveVars, newVars...)
 	s.buf.Reset()
 }
 
@@ -323,156 +455,374 @@ func (s *Solver) Assert(t *term.T) {
 	s.send("(assert " + s.ref(t) + ")\n")
 }
 
-// Declare makes sure a variable is declared (so that models mention it).
+// LiveSelects returns the base-array select nodes currently defined.
+func (s *Solver) LiveSelects() []*term.T {
+	var out []*term.T
+	for _, v := range s.liveVars {
+		if v.Op == term.OSelect {
+			out = append(out, v)
+		}
+	}
+	return out
+}
+
+// Declare makes sure a term is defined (so that models can mention it).
 func (s *Solver) Declare(t *term.T) { s.define(t) }
+
+var slowLog = os.Getenv("SSE_SLOW") != ""
 
 func (s *Solver) checkSat() Result {
 	s.Queries++
+	s.satBy = nil
+	s.escModel = nil
 	t0 := time.Now()
-	s.send("(check-sat)\n")
-	line := s.readLine()
-	for line == "" && s.Err == nil {
-		line = s.readLine()
+	if s.Log != nil {
+		io.WriteString(s.Log, "(check-sat)\n")
+	}
+	racing := map[*backend]bool{}
+	for _, b := range s.bs {
+		if b.dead || b.sent-b.read >= 2 {
+			continue // dead, or lagging: sits this one out
+		}
+		b.send("(check-sat)\n")
+		b.sent++
+		racing[b] = true
+	}
+	if len(racing) == 0 {
+		for _, b := range s.bs {
+			if !b.dead {
+				b.send("(check-sat)\n")
+				b.sent++
+				racing[b] = true
+				break
+			}
+		}
+	}
+	res := Unknown
+	var winner *backend
+	deadline := time.After(time.Duration(3*s.FastMs+3000) * time.Millisecond)
+	waiting := len(racing)
+loop:
+	for waiting > 0 && s.alive() > 0 {
+		select {
+		case m := <-s.msgs:
+			b := m.b
+			if b.dead {
+				continue
+			}
+			if m.eof {
+				if racing[b] {
+					waiting--
+				}
+				s.kill(b, "process ended")
+				continue
+			}
+			if !m.ans {
+				if strings.Contains(m.line, "(error") {
+					if racing[b] {
+						waiting--
+					}
+					s.kill(b, m.line)
+				}
+				continue
+			}
+			b.read++
+			if b.read < b.sent || !racing[b] {
+				continue // stale answer of an earlier query
+			}
+			waiting--
+			if m.line == "sat" {
+				res, winner = Sat, b
+				break loop
+			}
+			if m.line == "unsat" {
+				res, winner = Unsat, b
+				break loop
+			}
+		case <-deadline:
+			break loop
+		}
 	}
 	s.Time += time.Since(t0)
-	switch line {
-	case "sat":
-		s.NSat++
-		return Sat
-	case "unsat":
-		s.NUnsat++
-		return Unsat
+	if slowLog && time.Since(t0) > 500*time.Millisecond {
+		w := "-"
+		if winner != nil {
+			w = winner.name
+		}
+		fmt.Fprintf(os.Stderr, "SLOW %.1fs %v by=%s live=%d %s\n", time.Since(t0).Seconds(), res, w, len(s.live), s.Where)
 	}
-	if s.Err != nil || s.Kind != "z3" {
+	if s.Err != nil {
 		s.NUnknown++
 		return Unknown
 	}
-	// the incremental solver gave up within its short budget: ask the portfolio
+	switch res {
+	case Sat:
+		s.NSat++
+		s.Wins[winner.name]++
+		s.satBy = winner
+		return Sat
+	case Unsat:
+		s.NUnsat++
+		s.Wins[winner.name]++
+		return Unsat
+	}
+	// every incremental back end gave up within its short budget: ask the portfolio
 	t1 := time.Now()
 	r, model := s.escalate()
 	s.EscTime += time.Since(t1)
 	s.Time += time.Since(t1)
 	s.Escalated++
+	if slowLog {
+		fmt.Fprintf(os.Stderr, "ESCALATED %.1fs -> %v %v %s\n", time.Since(t1).Seconds(), r, s.EscWins, s.Where)
+	}
 	switch r {
 	case Unsat:
 		s.NUnsat++
 		return Unsat
 	case Sat:
-		// pin the inputs so that the live solver can produce the same model cheaply
-		var sb strings.Builder
-		for _, v := range s.liveVars {
-			if val, ok := model[v.ID]; ok {
-				if v.W == 0 {
-					if val != 0 {
-						fmt.Fprintf(&sb, "(assert t%d)\n", v.ID)
-					} else {
-						fmt.Fprintf(&sb, "(assert (not t%d))\n", v.ID)
-					}
-				} else {
-					fmt.Fprintf(&sb, "(assert (= t%d %s))\n", v.ID, bvConst(v.W, val))
-				}
-			}
-		}
-		s.send(fmt.Sprintf("(set-option :timeout %d)\n", s.TimeoutMs))
-		s.send(sb.String())
-		s.send("(check-sat)\n")
-		line = s.readLine()
-		for line == "" && s.Err == nil {
-			line = s.readLine()
-		}
-		s.send(fmt.Sprintf("(set-option :timeout %d)\n", s.FastMs))
-		if line == "sat" {
-			s.NSat++
-			return Sat
-		}
-		if line == "unsat" && s.Err == nil {
-			s.Err = fmt.Errorf("solver disagreement: portfolio model rejected by z3")
-		}
+		s.escModel = model
+		s.NSat++
+		return Sat
 	}
 	s.NUnknown++
 	return Unknown
 }
 
-type escResult struct {
-	who   string
-	r     Result
-	model map[int32]uint64
+// Check decides path ∧ extra... (extras are not kept).
+func (s *Solver) Check(extra ...*term.T) Result {
+	for _, e := range extra {
+		s.define(e)
+	}
+	s.send("(push 1)\n")
+	for _, e := range extra {
+		s.send("(assert " + s.ref(e) + ")\n")
+	}
+	r := s.checkSat()
+	s.escModel = nil
+	s.satBy = nil
+	s.send("(pop 1)\n")
+	return r
 }
 
-// escalate decides the currently asserted formula with several solvers
-// started in parallel on a self-contained script; first definite answer wins.
-func (s *Solver) escalate() (Result, map[int32]uint64) {
-	var sb strings.Builder
-	for _, ln := range s.live {
-		if strings.HasPrefix(ln, "(push") {
-			continue
-		}
-		sb.WriteString(ln)
+// CheckKeep is like Check but leaves the scope open so that values can be
+// read after Sat; the caller must call Release.
+func (s *Solver) CheckKeep(extra ...*term.T) Result {
+	for _, e := range extra {
+		s.define(e)
 	}
-	sb.WriteString("(check-sat)\n")
-	if len(s.liveVars) > 0 {
+	s.send("(push 1)\n")
+	s.depth++
+	s.marks = append(s.marks, [2]int{len(s.scoped), len(s.scopedA)})
+	for _, e := range extra {
+		s.send("(assert " + s.ref(e) + ")\n")
+	}
+	return s.checkSat()
+}
+
+func (s *Solver) Release() {
+	s.escModel = nil
+	s.satBy = nil
+	s.send("(pop 1)\n")
+	s.depth--
+	m := s.marks[len(s.marks)-1]
+	s.marks = s.marks[:len(s.marks)-1]
+	for _, id := range s.scoped[m[0]:] {
+		delete(s.defined, id)
+	}
+	for _, id := range s.scopedA[m[1]:] {
+		delete(s.declaredA, id)
+	}
+	s.scoped = s.scoped[:m[0]]
+	s.scopedA = s.scopedA[:m[1]]
+}
+
+// Values reads the model values of terms (after a Sat CheckKeep). The terms
+// must have been defined before the CheckKeep.
+func (s *Solver) Values(ts []*term.T) []uint64 {
+	res := make([]uint64, len(ts))
+	if s.escModel != nil {
+		memo := map[int32]uint64{}
+		for i, t := range ts {
+			v, ok := term.Eval(t, s.escModel, memo)
+			if !ok && s.Err == nil {
+				miss := term.MissingLeaf(t, s.escModel)
+				inLive := false
+				for _, v := range s.liveVars {
+					if miss != nil && v.ID == miss.ID {
+						inLive = true
+					}
+				}
+				s.Err = fmt.Errorf("portfolio model lacks a value needed for term t%d (leaf t%d op=%d name=%s inLive=%v model=%d live=%d)", t.ID, miss.ID, miss.Op, miss.Name, inLive, len(s.escModel), len(s.liveVars))
+			}
+			res[i] = v
+		}
+		return res
+	}
+	b := s.satBy
+	if b == nil || b.dead {
+		if s.Err == nil {
+			s.Err = fmt.Errorf("Values: no back end holds a model")
+		}
+		return res
+	}
+	const chunk = 200
+	for off := 0; off < len(ts); off += chunk {
+		end := off + chunk
+		if end > len(ts) {
+			end = len(ts)
+		}
+		var sb strings.Builder
 		sb.WriteString("(get-value (")
-		for _, v := range s.liveVars {
-			fmt.Fprintf(&sb, "t%d ", v.ID)
+		cnt := 0
+		for _, t := range ts[off:end] {
+			if t.Op == term.OConst {
+				continue
+			}
+			sb.WriteString(s.ref(t))
+			sb.WriteByte(' ')
+			cnt++
 		}
 		sb.WriteString("))\n")
-	}
-	body := sb.String()
-	type cfg struct {
-		name string
-		args []string
-		pre  string
-	}
-	cfgs := []cfg{
-		{"cvc5-bv-as-int", []string{"cvc5", "--lang=smt2", "--produce-models", "--solve-bv-as-int=sum"}, "(set-logic ALL)\n"},
-		{"z3-new", []string{"z3-new", "-in", "-smt2"}, "(set-option :produce-models true)\n"},
-		{"cvc5", []string{"cvc5", "--lang=smt2", "--produce-models"}, "(set-logic QF_ABV)\n"},
-		{"z3-oneshot", []string{"/usr/bin/z3", "-in", "-smt2"}, "(set-option :produce-models true)\n"},
-	}
-	ctx, cancel := context.WithTimeout(context.Background(), time.Duration(s.TimeoutMs)*time.Millisecond)
-	defer cancel()
-	ch := make(chan escResult, len(cfgs))
-	for _, c := range cfgs {
-		go func(c cfg) {
-			cmd := exec.CommandContext(ctx, c.args[0], c.args[1:]...)
-			cmd.Stdin = strings.NewReader(c.pre + body)
-			out, _ := cmd.Output()
-			txt := string(out)
-			res := escResult{who: c.name, r: Unknown}
-			first := strings.TrimSpace(txt)
-			if i := strings.Index(first, "\n"); i >= 0 {
-				first = strings.TrimSpace(first[:i])
+		var vals []uint64
+		if cnt > 0 {
+			if s.Log != nil {
+				io.WriteString(s.Log, sb.String())
 			}
-			if strings.Contains(txt, "(error") && first != "unsat" {
-				ch <- res
-				return
+			b.send(sb.String())
+			vals = s.readValues(b, cnt)
+		}
+		vi := 0
+		for i, t := range ts[off:end] {
+			if t.Op == term.OConst {
+				res[off+i] = t.K
+			} else if vi < len(vals) {
+				res[off+i] = vals[vi]
+				vi++
 			}
-			switch first {
-			case "unsat":
-				res.r = Unsat
-			case "sat":
-				res.r = Sat
-				rest := txt[strings.Index(txt, "sat")+3:]
-				res.model = parseModel(rest)
-			}
-			ch <- res
-		}(c)
-	}
-	if d := os.Getenv("SSE_ESCDUMP"); d != "" {
-		os.MkdirAll(d, 0o755)
-		os.WriteFile(fmt.Sprintf("%s/esc%d_%d.smt2", d, os.Getpid(), s.Escalated), []byte(body), 0o644)
-	}
-	for i := 0; i < len(cfgs); i++ {
-		r := <-ch
-		if r.r != Unknown {
-			if s.EscWins == nil {
-				s.EscWins = map[string]int{}
-			}
-			s.EscWins[r.who]++
-			return r.r, r.model
 		}
 	}
-	return Unknown, nil
+	return res
+}
+
+func (s *Solver) readValues(b *backend, n int) []uint64 {
+	var sb strings.Builder
+	depth := 0
+	started := false
+	timeout := time.After(60 * time.Second)
+	for {
+		var m msg
+		select {
+		case m = <-s.msgs:
+		case <-timeout:
+			s.kill(b, "get-value timed out")
+			if s.Err == nil {
+				s.Err = fmt.Errorf("get-value timed out")
+			}
+			return nil
+		}
+		if m.b != b {
+			// a lagging back end reporting on an earlier query
+			if m.eof {
+				s.kill(m.b, "process ended")
+			} else if m.ans {
+				m.b.read++
+			} else if strings.Contains(m.line, "(error") {
+				s.kill(m.b, m.line)
+			}
+			continue
+		}
+		if m.eof {
+			s.kill(b, "process ended during get-value")
+			if s.Err == nil {
+				s.Err = fmt.Errorf("solver %s ended during get-value", b.name)
+			}
+			return nil
+		}
+		if m.ans {
+			b.read++
+			continue
+		}
+		line := m.line
+		if strings.Contains(line, "(error") {
+			if s.Err == nil {
+				s.Err = fmt.Errorf("solver error: %s", line)
+			}
+			return nil
+		}
+		sb.WriteString(line)
+		sb.WriteByte('\n')
+		for _, ch := range line {
+			if ch == '(' {
+				depth++
+				started = true
+			} else if ch == ')' {
+				depth--
+			}
+		}
+		if started && depth <= 0 {
+			break
+		}
+	}
+	vals := parseModelList(sb.String())
+	if len(vals) != n && s.Err == nil {
+		s.Err = fmt.Errorf("get-value: expected %d values, parsed %d", n, len(vals))
+	}
+	return vals
+}
+
+func parseValueTokens(toks []string, i int) (uint64, int) {
+	var v uint64
+	if toks[i] == "(" {
+		if i+2 < len(toks) && strings.HasPrefix(toks[i+2], "bv") {
+			v, _ = strconv.ParseUint(toks[i+2][2:], 10, 64)
+		}
+		d := 0
+		for i < len(toks) {
+			if toks[i] == "(" {
+				d++
+			} else if toks[i] == ")" {
+				d--
+				if d == 0 {
+					i++
+					break
+				}
+			}
+			i++
+		}
+		return v, i
+	}
+	tk := toks[i]
+	switch {
+	case tk == "true":
+		v = 1
+	case strings.HasPrefix(tk, "#x"):
+		v, _ = strconv.ParseUint(tk[2:], 16, 64)
+	case strings.HasPrefix(tk, "#b"):
+		v, _ = strconv.ParseUint(tk[2:], 2, 64)
+	}
+	return v, i + 1
+}
+
+func parseModelList(txt string) []uint64 {
+	toks := tokenize(txt)
+	var vals []uint64
+	i := 0
+	if i < len(toks) && toks[i] == "(" {
+		i++
+	}
+	for i < len(toks) && toks[i] == "(" {
+		i += 2 // "(" name
+		if i >= len(toks) {
+			break
+		}
+		var v uint64
+		v, i = parseValueTokens(toks, i)
+		vals = append(vals, v)
+		if i < len(toks) && toks[i] == ")" {
+			i++
+		}
+	}
+	return vals
 }
 
 func parseModel(txt string) map[int32]uint64 {
@@ -489,36 +839,11 @@ func parseModel(txt string) map[int32]uint64 {
 		}
 		name := toks[i]
 		i++
-		var v uint64
-		if i < len(toks) && toks[i] == "(" {
-			if i+2 < len(toks) && strings.HasPrefix(toks[i+2], "bv") {
-				v, _ = strconv.ParseUint(toks[i+2][2:], 10, 64)
-			}
-			d := 0
-			for i < len(toks) {
-				if toks[i] == "(" {
-					d++
-				} else if toks[i] == ")" {
-					d--
-					if d == 0 {
-						i++
-						break
-					}
-				}
-				i++
-			}
-		} else if i < len(toks) {
-			tk := toks[i]
-			switch {
-			case tk == "true":
-				v = 1
-			case strings.HasPrefix(tk, "#x"):
-				v, _ = strconv.ParseUint(tk[2:], 16, 64)
-			case strings.HasPrefix(tk, "#b"):
-				v, _ = strconv.ParseUint(tk[2:], 2, 64)
-			}
-			i++
+		if i >= len(toks) {
+			break
 		}
+		var v uint64
+		v, i = parseValueTokens(toks, i)
 		if strings.HasPrefix(name, "t") {
 			if id, err := strconv.Atoi(name[1:]); err == nil {
 				m[int32(id)] = v
@@ -529,186 +854,6 @@ func parseModel(txt string) map[int32]uint64 {
 		}
 	}
 	return m
-}
-
-// Check decides path ∧ extra... (extras are not kept).
-func (s *Solver) Check(extra ...*term.T) Result {
-	for _, e := range extra {
-		s.define(e)
-	}
-	s.send("(push 1)\n")
-	for _, e := range extra {
-		s.send("(assert " + s.ref(e) + ")\n")
-	}
-	r := s.checkSat()
-	s.send("(pop 1)\n")
-	return r
-}
-
-// CheckKeep is like Check but on Sat leaves the scope open so that values
-// can be read; the caller must call Release.
-func (s *Solver) CheckKeep(extra ...*term.T) Result {
-	for _, e := range extra {
-		s.define(e)
-	}
-	s.send("(push 1)\n")
-	s.depth++
-	s.marks = append(s.marks, [2]int{len(s.scoped), len(s.scopedA)})
-	for _, e := range extra {
-		s.send("(assert " + s.ref(e) + ")\n")
-	}
-	return s.checkSat()
-}
-
-func (s *Solver) Release() {
-	s.send("(pop 1)\n")
-	s.depth--
-	m := s.marks[len(s.marks)-1]
-	s.marks = s.marks[:len(s.marks)-1]
-	for _, id := range s.scoped[m[0]:] {
-		delete(s.defined, id)
-	}
-	for _, id := range s.scopedA[m[1]:] {
-		delete(s.declaredA, id)
-	}
-	s.scoped = s.scoped[:m[0]]
-	s.scopedA = s.scopedA[:m[1]]
-}
-
-// Values reads the model values of terms (after a Sat CheckKeep). The terms
-// must already be defined.
-func (s *Solver) Values(ts []*term.T) []uint64 {
-	res := make([]uint64, len(ts))
-	const chunk = 200
-	for off := 0; off < len(ts); off += chunk {
-		end := off + chunk
-		if end > len(ts) {
-			end = len(ts)
-		}
-		var b strings.Builder
-		b.WriteString("(get-value (")
-		cnt := 0
-		for _, t := range ts[off:end] {
-			if t.Op == term.OConst {
-				continue
-			}
-			b.WriteString(s.ref(t))
-			b.WriteByte(' ')
-			cnt++
-		}
-		b.WriteString("))\n")
-		var vals []uint64
-		if cnt > 0 {
-			s.send(b.String())
-			vals = s.readValues(cnt)
-		}
-		vi := 0
-		for i, t := range ts[off:end] {
-			if t.Op == term.OConst {
-				res[off+i] = t.K
-			} else if vi < len(vals) {
-				res[off+i] = vals[vi]
-				vi++
-			}
-		}
-	}
-	return res
-}
-
-// DefineForValue makes terms available to Values while a kept scope is open.
-func (s *Solver) DefineForValue(ts []*term.T) {
-	for _, t := range ts {
-		s.define(t)
-	}
-}
-
-func (s *Solver) readValues(n int) []uint64 {
-	// read until parentheses balance
-	var sb strings.Builder
-	depth := 0
-	started := false
-	for {
-		line, err := s.out.ReadString('\n')
-		if err != nil {
-			if s.Err == nil {
-				s.Err = fmt.Errorf("solver pipe: %v", err)
-			}
-			return nil
-		}
-		if strings.Contains(line, "(error") && s.Err == nil {
-			s.Err = fmt.Errorf("solver error: %s", strings.TrimSpace(line))
-			return nil
-		}
-		sb.WriteString(line)
-		for _, ch := range line {
-			if ch == '(' {
-				depth++
-				started = true
-			} else if ch == ')' {
-				depth--
-			}
-		}
-		if started && depth <= 0 {
-			break
-		}
-	}
-	txt := sb.String()
-	// entries look like (tN VALUE); VALUE is #x.., #b.., true, false, or (_ bvK W)
-	vals := make([]uint64, 0, n)
-	toks := tokenize(txt)
-	// toks: ( ( name val ) ( name val ) ... )
-	i := 0
-	if i < len(toks) && toks[i] == "(" {
-		i++
-	}
-	for i < len(toks) && toks[i] == "(" {
-		i++ // (
-		i++ // name
-		if i >= len(toks) {
-			break
-		}
-		var v uint64
-		if toks[i] == "(" {
-			// (_ bvK W)
-			if i+2 < len(toks) && strings.HasPrefix(toks[i+2], "bv") {
-				v, _ = strconv.ParseUint(toks[i+2][2:], 10, 64)
-			}
-			d := 0
-			for i < len(toks) {
-				if toks[i] == "(" {
-					d++
-				} else if toks[i] == ")" {
-					d--
-					if d == 0 {
-						i++
-						break
-					}
-				}
-				i++
-			}
-		} else {
-			tk := toks[i]
-			switch {
-			case tk == "true":
-				v = 1
-			case tk == "false":
-				v = 0
-			case strings.HasPrefix(tk, "#x"):
-				v, _ = strconv.ParseUint(tk[2:], 16, 64)
-			case strings.HasPrefix(tk, "#b"):
-				v, _ = strconv.ParseUint(tk[2:], 2, 64)
-			}
-			i++
-		}
-		vals = append(vals, v)
-		if i < len(toks) && toks[i] == ")" {
-			i++
-		}
-	}
-	if len(vals) != n && s.Err == nil {
-		s.Err = fmt.Errorf("get-value: expected %d values, parsed %d from %q", n, len(vals), txt)
-	}
-	return vals
 }
 
 func tokenize(s string) []string {
@@ -739,4 +884,84 @@ func tokenize(s string) []string {
 		}
 	}
 	return toks
+}
+
+type escResult struct {
+	who   string
+	r     Result
+	model map[int32]uint64
+}
+
+// escalate decides the currently asserted formula with several solvers
+// started in parallel on a self-contained script; first definite answer wins.
+func (s *Solver) escalate() (Result, map[int32]uint64) {
+	var sb strings.Builder
+	for _, ln := range s.live {
+		sb.WriteString(ln)
+	}
+	sb.WriteString("(check-sat)\n")
+	if len(s.liveVars) > 0 {
+		sb.WriteString("(get-value (")
+		for _, v := range s.liveVars {
+			fmt.Fprintf(&sb, "t%d ", v.ID)
+		}
+		sb.WriteString("))\n")
+	}
+	body := sb.String()
+	nvars := len(s.liveVars)
+	if d := os.Getenv("SSE_ESCDUMP"); d != "" {
+		os.MkdirAll(d, 0o755)
+		os.WriteFile(fmt.Sprintf("%s/esc%d_%d.smt2", d, os.Getpid(), s.Escalated), []byte(body), 0o644)
+	}
+	type cfg struct {
+		name string
+		args []string
+		pre  string
+	}
+	cfgs := []cfg{
+		{"z3-new", []string{"z3-new", "-in", "-smt2"}, "(set-option :produce-models true)\n"},
+		{"cvc5", []string{"cvc5", "--lang=smt2", "--produce-models"}, "(set-logic QF_ABV)\n"},
+		{"z3-oneshot", []string{"/usr/bin/z3", "-in", "-smt2"}, "(set-option :produce-models true)\n"},
+		{"cvc5-bv-as-int", []string{"cvc5", "--lang=smt2", "--produce-models", "--solve-bv-as-int=sum"}, "(set-logic ALL)\n"},
+	}
+	ctx, cancel := context.WithTimeout(context.Background(), time.Duration(s.TimeoutMs)*time.Millisecond)
+	defer cancel()
+	ch := make(chan escResult, len(cfgs))
+	for _, c := range cfgs {
+		go func(c cfg) {
+			cmd := exec.CommandContext(ctx, c.args[0], c.args[1:]...)
+			cmd.Stdin = strings.NewReader(c.pre + body)
+			out, runErr := cmd.Output()
+			txt := string(out)
+			res := escResult{who: c.name, r: Unknown}
+			first := strings.TrimSpace(txt)
+			if i := strings.Index(first, "\n"); i >= 0 {
+				first = strings.TrimSpace(first[:i])
+			}
+			if strings.Contains(txt, "(error") && first != "unsat" {
+				ch <- res
+				return
+			}
+			switch first {
+			case "unsat":
+				res.r = Unsat
+			case "sat":
+				if runErr == nil {
+					res.model = parseModel(txt[strings.Index(txt, "sat")+3:])
+					if len(res.model) >= nvars {
+						res.r = Sat
+					}
+				}
+			}
+			ch <- res
+		}(c)
+	}
+	for i := 0; i < len(cfgs); i++ {
+		r := <-ch
+		if r.r != Unknown {
+			s.EscWins[r.who]++
+			return r.r, r.model
+		}
+	}
+	return Unknown, nil
 }
